@@ -312,9 +312,12 @@ Session make(const std::string& kind, long idx)
         s.send("position fen " + b.fen());
         static const int DELAYS[] = {0, 0, 0, 1, 2, 5, 10, 30, 80, 200};
         int dly = DELAYS[RNG->below(10)];
-        bool infinite = RNG->below(3) != 0;
-        s.tag = std::string("stoprace:") + (infinite ? "infinite" : "depth12") + ":delay" + std::to_string(dly);
-        s.go(infinite ? "go infinite" : "go depth 12", dly, b, infinite ? 0 : 12, {}, RNG->below(2));
+        int mode = int(RNG->below(6));  // 0..2 infinite, 3 depth 12, 4..5 a search that ends on its own before / around the stop
+        bool infinite = mode <= 2;
+        int d = mode == 3 ? 12 : 1 + int(RNG->below(3));
+        if (mode >= 4) dly = int(RNG->below(2) ? RNG->below(30) : 100 + RNG->below(300));
+        s.tag = std::string("stoprace:") + (infinite ? "infinite" : mode == 3 ? "depth12" : "short-search") + ":delay" + std::to_string(dly);
+        s.go(infinite ? "go infinite" : "go depth " + std::to_string(d), dly, b, infinite ? 0 : d, {}, infinite && RNG->below(2));
     }
     else if (kind == "replay")
     {
@@ -339,6 +342,51 @@ Session make(const std::string& kind, long idx)
             if (!(idx % 2)) s.send("moves " + moves_text(g.moves, n, n + step));
             n = std::min(g.moves.size(), n + step);
         }
+        // a GUI may interleave other board-changing commands with position commands that textually extend an earlier one
+        if (g.moves.size() >= 6)
+        {
+            size_t half = g.moves.size() / 2;
+            s.send(pos_cmd(g, half));
+            if (idx % 4 < 2)
+                s.send("ucinewgame");
+            else
+                s.send("moves " + moves_text(g.moves, half, half + 2));
+            s.send(pos_cmd(g, g.moves.size()));
+            s.board(play(g, g.moves.size()));
+            s.send("ucinewgame");
+            s.board(Board::startpos());
+            s.send(pos_cmd(g, half + 1));
+            s.board(play(g, half + 1));
+        }
+    }
+    else if (kind == "smpromo")
+    {
+        // searchmoves lists that contain promotions (five-character moves), alone or mixed with ordinary moves,
+        // chosen so that the engine would prefer a move OUTSIDE the list (under-promotions only, or quiet moves only)
+        Board b;
+        std::vector<orc::Move> promos, others;
+        for (int tries = 0; tries < 200; ++tries)
+        {
+            b = gen::synth(*RNG, gen::T_PROMO);
+            promos.clear();
+            others.clear();
+            for (const orc::Move& m : b.legal()) (m.promo ? promos : others).push_back(m);
+            if (!promos.empty() && !others.empty()) break;
+        }
+        s.tag = "smpromo";
+        s.send("position fen " + b.fen());
+        std::vector<orc::Move> sm;
+        int mode = int(idx % 4);
+        for (const orc::Move& m : promos)
+            if (m.promo != orc::QUEEN && (mode == 0 || RNG->below(2))) sm.push_back(m);
+        if (mode == 2 && !others.empty()) sm.insert(sm.begin(), others[RNG->below(uint32_t(others.size()))]);
+        if (mode == 3 && !others.empty()) sm.push_back(others[RNG->below(uint32_t(others.size()))]);
+        if (sm.empty()) sm.push_back(promos[0]);
+        int d = 1 + int(idx % 3);
+        bool depth_first = idx % 2;
+        std::string list;
+        for (const orc::Move& m : sm) list += " " + m.uci();
+        s.go(depth_first ? "go depth " + std::to_string(d) + " searchmoves" + list : "go searchmoves" + list, -1, b, depth_first ? d : 0, sm);
     }
     else if (kind == "book")
     {
